@@ -427,7 +427,7 @@ def step(cfg, tier, seed, workdir, env):
         samples.append({"document": origin[m][0], "config": origin[m][1], "idl_head": origin[m][3][:200]})
     # T1 for the boxing decision (Build/Graph.lean vs the `Box<…>` fields of the emitted structs): every generated Thrift document
     # whose output is a single file, under every configuration
-    disagreements, boxed_positions, box_docs = [], 0, 0
+    disagreements, boxed_positions, box_docs, derive_items = [], 0, 0, 0
     for m in mods:
         name, cname, idl, text, flags, kind = origin[m]
         if kind != "thrift" or "--split" in flags or name not in ("cycles", "mutual", "boxzoo"):
@@ -441,6 +441,15 @@ def step(cfg, tier, seed, workdir, env):
         boxed_positions += len(model.split()) if model and not model.startswith(("unsaturated", "no answer", "bad")) else 0
         if impl != model:
             disagreements.append(("C14box", f"{req[:4000]}   # document {name} [{cname}]", impl[:600], model[:600]))
+        # ... and for the automatic derives (Build/Derive.lean vs the derive line in front of every emitted type)
+        try:
+            req, impl, model, nitems = boxsuite.compare_derives(text, os.path.join(CHECK_DIR, m, "gen.rs"))
+        except Exception as ex:
+            req, impl, model = f"derives <{name}>", f"unreadable: {ex}", "?"
+        evaluations += 1
+        derive_items += nitems
+        if impl != model:
+            disagreements.append(("C14derive", f"{req[:4000]}   # document {name} [{cname}]", impl[:600], model[:600]))
     return dict(evaluations=evaluations, distinct=distinct, samples=samples, oracle_fails=oracle_fails, disagreements=disagreements,
                 extra={"documents": len(docs), "configurations": [c for c, _ in configs], "modules_type_checked": len(mods), "rustc_rounds": rounds,
-                       "boxing_documents_compared": box_docs, "boxed_positions_in_model": boxed_positions})
+                       "boxing_documents_compared": box_docs, "boxed_positions_in_model": boxed_positions, "derive_decisions_compared": 2 * derive_items})
